@@ -103,6 +103,9 @@ static int get_vector_number(char **p, int *num)
 
     value = (value * 10) + (*s - '0');
 
+    // No vector or element number is this big (and more digits would wrap).
+    if (value > 255) { return -1; }
+
     s++;
   }
 
